@@ -161,7 +161,7 @@ def main(argv=None):
         print(f'[{pid}] OK: property held on everything explored')
         return 0
 
-    rc = 1
+    confirmed, unconfirmed = 0, []
     for i, key in enumerate(new):
         case, msg, task = acc.viol[key][0]
         path = write_replay(pid, key, case, msg, task)
@@ -178,14 +178,20 @@ def main(argv=None):
                                    cwd=VERIF, env=env, capture_output=True, text=True)
                 if r.returncode == 1 and f'key={key}' in r.stdout:
                     msg = '[depends on the preceding calls of its task; replay with VERIF_REPLAY_TASK=1] ' + msg
-            if r.returncode != 1 or f'key={key}' not in r.stdout:
-                print(f'MACHINERY-ERROR: violation {key} did not reproduce from {path} '
-                      f'in a fresh interpreter (rc={r.returncode}):\n{r.stdout[-1500:]}{r.stderr[-1500:]}')
-                rc = 2
+            if r.returncode == 1 and f'key={key}' not in r.stdout and 'REPLAY-RESULT violated' in r.stdout:
+                # reproduced, but the fresh interpreter files it under another key of this property (which of two
+                # histories is "the first" depends on what else ran): still a violation shown on the real code
+                msg = '[reproduces under another key in a fresh interpreter] ' + msg
+            elif r.returncode != 1 or f'key={key}' not in r.stdout:
+                unconfirmed.append(f'violation {key} did not reproduce from {path} '
+                                   f'in a fresh interpreter (rc={r.returncode}):\n{r.stdout[-1500:]}{r.stderr[-1500:]}')
                 continue
+        confirmed += 1
         print(f'VIOLATION property={pid} replay={path}')
         print(f'    key={key} count_total={acc.viol_count} :: {msg[:600]}')
-    return rc
+    for u in unconfirmed:
+        print(('UNCONFIRMED: ' if confirmed else 'MACHINERY-ERROR: ') + u)
+    return 1 if confirmed else 2
 
 
 if __name__ == '__main__':
